@@ -696,5 +696,26 @@ pub proof fn admit_root_offset(t: &TokTrie)
     admit(); // ASSUMED: node_offset(root) == 0 (pointer identity of &self.nodes[0])
 }
 
+
+// vacuity guards (must FAIL)
+/// the layout invariant is satisfiable for tries with several nodes
+pub proof fn must_fail_trie_wf_contradictory(nodes: Seq<TrieNode>, d: Seq<nat>, vocab: u32)
+    requires trie_wf(nodes, d, vocab), nodes.len() >= 3,
+{
+    assert(false);
+}
+/// the walk does set bits: a mask that was empty need not stay empty
+pub fn must_fail_add_bias_sets_nothing<R: Recognizer>(t: &TokTrie, r: &mut R, toks: &mut SimpleVob, start: &[u8])
+    requires
+        t.wf(), old(r).fresh(), old(r).rinv(), start@.len() == 0,
+        (t.vocab() >> 5) < old(toks).nwords(), old(toks).nwords() * 32 <= usize::MAX,
+        depth_fits(t.nodes@, t.depths(), 0, old(r).cap() as int),
+        t.spec_child(start@) == Some(0int),
+        forall|k: int| !old(toks).has(k),
+{
+    t.add_bias(r, toks, start);
+    assert(forall|k: int| !toks.has(k));
+}
+
 } // verus!
 fn main() {}
